@@ -121,6 +121,23 @@ class World:
         else:
             with _REAL_OPEN(self.path, "wb") as fp:
                 fp.write(content)
+        self.sig = self.stat_sig()
+
+    def stat_sig(self):
+        try:
+            st = os.stat(self.path)
+        except FileNotFoundError:
+            return None
+        return (st.st_ino, st.st_size, st.st_mtime_ns)
+
+    def disk_now(self):
+        """content of the key file; the file is only re-read when its stat signature moved or the library opened
+        it for writing in this step (every open() of the path is logged by the hook)"""
+        sig = self.stat_sig()
+        if sig == self.sig and not any(c in m for m in self.opens for c in "wax+"):
+            return self.disk
+        self.sig = sig
+        return self.read_disk()
 
     def read_disk(self):
         try:
@@ -201,6 +218,7 @@ class World:
             elif before is None and not self.ro:
                 self.used = True
                 now = self.read_disk()
+                self.sig = self.stat_sig()
                 if exc is not None:
                     self.failed = True
                     bad(O_CREATED, "missing key file in a writable directory: open raised %s" % type(exc).__name__)
@@ -308,7 +326,7 @@ class World:
 
         # ---- clauses evaluated after every step ----
         opens_in_step = list(self.opens)
-        now = self.read_disk()
+        now = self.disk_now()
         if now != self.disk:
             bad(O_FILE, "key file changed by the library: model %s, disk %s"
                 % (_show(self.disk), _show(now)))
@@ -354,12 +372,13 @@ def _show(b):
     return "absent" if b is None else "%dB:%s" % (len(b), b[:6].hex())
 
 
-def _allowed(world, prev, first):
+def _allowed(world, prev, first, last=False):
     if world.depth > 0:
         ops = ["enter", "exit", "enc", "dec"]
     else:
         ops = ["enter", "enc", "dec", "new"]
-        if not first and not (prev or "").startswith("ext:"):
+        # an external change as the final step of a maximal sequence is never observed by the library: skipped
+        if not first and not last and not (prev or "").startswith("ext:"):
             ops += [e for e in EXT_OPS if e[4:] != world.kind]
     return [o for o in ops if not (o == prev and o in ("enc", "dec", "new"))]
 
@@ -402,7 +421,7 @@ def rac(tier: str, seed: int) -> dict:
                    "ext:<file state>} from every initial file state is one case (key = initial state + op tuple); "
                    "non-trivial when it contains a library call (enter/exit/enc/dec); pruned only: ext directly "
                    "after ext / as first op / to the current state, repeated enc,enc / dec,dec / new,new, "
-                   "ext and new inside an open context",
+                   "ext and new inside an open context, ext as the last step of a maximal-length sequence (unobservable)",
                    bound="7 file states (absent, valid 32B, other valid key, empty, 31B, 33B, absent in unwritable "
                    "dir [injected EACCES on write-open, process is root]) x sequences of length <= %d; 3 methods; "
                    "clauses evaluated after every step, plus XOR probe of the key in use" % maxlen,
@@ -423,7 +442,7 @@ def rac(tier: str, seed: int) -> dict:
                     complete = False
                     return
                 prev = ops[-1] if ops else None
-                for op in _allowed(w, prev, not ops):
+                for op in _allowed(w, prev, not ops, len(ops) == maxlen - 1):
                     st = w.save()
                     fs = w.step(op)
                     seq = ops + (op,)
